@@ -9,6 +9,8 @@ import traceback
 from core import AnchorLost
 
 VERIF = os.path.dirname(os.path.dirname(os.path.abspath(__file__)))
+# evidence normally goes to /verif/evidence; VERIF_OUT redirects it (used when checks run against scratch copies in parallel)
+OUT = os.environ.get("VERIF_OUT") or os.path.join(VERIF, "evidence")
 
 
 def load_known():
@@ -107,7 +109,7 @@ class Check:
         for rid, r in self.rules.items():
             print("  rule %-14s %-4s instances=%d floor=%d  %s" % (
                 rid, "ok" if not any(v["rule"] == rid for v in real) else "FAIL", r["instances"], r["floor"], r["desc"]))
-        rdir = os.path.join(VERIF, "evidence", "replay")
+        rdir = os.path.join(OUT, "replay")
         os.makedirs(rdir, exist_ok=True)
         for f in os.listdir(rdir):
             if f.startswith(self.pid + "-"):
@@ -152,8 +154,8 @@ class Check:
             "wall_s": round(time.time() - self.t0, 2),
             "violations": len(real),
         }
-        os.makedirs(os.path.join(VERIF, "evidence"), exist_ok=True)
-        with open(os.path.join(VERIF, "evidence", "%s.json" % self.pid), "w") as fh:
+        os.makedirs(OUT, exist_ok=True)
+        with open(os.path.join(OUT, "%s.json" % self.pid), "w") as fh:
             json.dump(ev, fh, indent=1)
         print("%s: %d rule instances, %d passed, %d known findings, %d violations, %.1fs" % (
             self.pid, obligations, discharged, len(self.known), len(real), time.time() - self.t0))
